@@ -201,3 +201,23 @@ def extras(ctx, replay=None):
 
 
 explore, search, replay = make({"C07"}, user_q=(50, 10, 40), user_t=(1200, 300, 1200), extra=extras)
+
+
+def probe_known(ctx, k):
+    """F8: Thread.start failing during worker_pool's thread start-up (subprocess, its own watchdog)."""
+    import os
+    import subprocess
+    if k.get("id") != "F8":
+        return "absent"
+    here = os.path.dirname(os.path.dirname(os.path.abspath(__file__)))
+    env = dict(os.environ, PYTHONPATH=os.environ.get("VERIF_REPO", "/repo") + "/src")
+    try:
+        r = subprocess.run(["/venv/bin/python", os.path.join(here, "probes", "thread_start_failure.py")], capture_output=True, text=True,
+                           timeout=20, env=env)
+    except subprocess.TimeoutExpired:
+        return "present"
+    return "present" if r.stdout.strip().startswith("present") else "absent"
+
+
+def matches_known(k, v):
+    return isinstance(v, dict) and v.get("witness_kind") == "thread-start-failure"
